@@ -113,6 +113,7 @@ class AM:
         self.bind = {}
         self._cache = {}
         self.lets = {}
+        self.syn = []   # sets of callee names the rule declares interchangeable at its templates (e.g. {"np.concatenate", "np.hstack"} for 1-d pieces)
         # locals bound exactly once by `name = value`: the matcher sees through them (a template written in inlined form also
         # matches code that names a sub-expression first)
         stores = {}
@@ -202,6 +203,13 @@ class AM:
                 if isinstance(a, ast.Name) and isinstance(a.ctx, ast.Load) and a.id in self.single and isinstance(t, ast.expr):
                     return self._m(t, self.single[a.id], b)
                 return False
+            if isinstance(t, ast.Call) and self.syn and not isinstance(t.func, ast.Name):
+                try:
+                    dt, da = ast.unparse(t.func), ast.unparse(a.func)
+                except Exception:
+                    dt = da = None
+                if dt != da and any(dt in cls and da in cls for cls in self.syn):
+                    return self._m(t.args, a.args, b) and self._m(t.keywords, a.keywords, b)
             if isinstance(t, ast.Compare) and len(t.ops) == 1 and isinstance(t.ops[0], (ast.Eq, ast.NotEq)) and len(a.ops) == 1 and type(a.ops[0]) is type(t.ops[0]):
                 b1 = dict(b)
                 if self._m(t.left, a.left, b1) and self._m(t.comparators[0], a.comparators[0], b1):
